@@ -20,6 +20,7 @@ EXPLANATION = (
     "every leftover row / column is yielded one-sided, nothing else is yielded; R07.4 every two-sided yield is "
     "dominated by a test that the pair's cell is positive; R07.5 the reported affinity is the matrix cell of the pair, "
     "0 for one-sided entries. Optimality of scipy's linear_sum_assignment is trusted."
+    "R07.1 also requires the matrix to be allocated as doubles and not converted / rounded; R07.3 accepts the complement form (one-sided entries = range(n) filtered by membership in the yielded pairs' components, the filter proved to be exactly those). "
 )
 ASSUMPTIONS = ["scipy.optimize.linear_sum_assignment(maximize=True) returns a maximum-weight one-to-one assignment (trusted)"]
 
